@@ -540,14 +540,21 @@ def admon_expected(admons: List[Any]) -> Tuple[List[str], List[Tuple[str, str]]]
     for a in admons:
         if a[0] == 'see also np':
             toks += ['See', 'Also']
+            run: List[str] = []
             for names, desc in a[1]:
-                toks += (', '.join(names)).split()
-                for line in desc:
-                    toks += line
+                if desc:
+                    toks += (', '.join(run)).split()
+                    run = []
+                    toks += names
+                    for line in desc:
+                        toks += line
+                else:
+                    run += names
+            toks += (', '.join(run)).split()
         elif a[0] == 'methods':
             toks += ['Methods']
             for name, desc in a[1]:
-                toks.append(name + '()')
+                toks.append(name + '(x)')
                 for line in desc:
                     toks += line
         else:
@@ -683,9 +690,13 @@ def more_of(f: List[Any]) -> List[Any]:
 
 def ser_field_more(f: List[Any], fmt: str, ind: int, width: int) -> List[str]:
     m = more_of(f)
-    if not m:
-        return []
-    return [''] + ser_blocks(m, fmt, ind, width)
+    out: List[str] = []
+    for b in m:
+        out.append('')
+        # epytext: a list inside a field must be indented more than the paragraphs of the field
+        extra = 2 if (fmt == 'epytext' and b[0] in ('ulist', 'olist')) else 0
+        out += ser_blocks([b], fmt, ind + extra, width)
+    return out
 
 
 def pick(doc: Dict[str, Any], options: List[str], salt: int) -> str:
@@ -723,9 +734,9 @@ def ser_admons(admons: List[Any], fmt: str, width: int) -> List[str]:
         elif key == 'methods':
             for name, desc in a[1]:
                 if fmt == 'google':
-                    lines.append(pad + name + '(): ' + ' '.join(desc[0]))
+                    lines.append(pad + name + '(x): ' + ' '.join(desc[0]))
                 else:
-                    lines.append(pad + name + '()')
+                    lines.append(pad + name + '(x)')
                     lines.append(pad + '    ' + ' '.join(desc[0]))
                 for d in desc[1:]:
                     lines.append(pad + '    ' + ' '.join(d))
